@@ -836,10 +836,7 @@ fn main() {
         let fmt = extract(notes, "format").unwrap_or_else(|| "fasta".to_string());
         let file = match extract(notes, "file") {
             Some(f) => unescape(&f),
-            None => {
-                println!("{{\"outcome\":\"unusable\",\"message\":\"no file in notes\"}}");
-                std::process::exit(3);
-            }
+            None => Vec::new(),
         };
         (args[1].clone(), fmt, file, 3usize)
     } else {
@@ -868,12 +865,30 @@ fn main() {
             ("fastq", b"@a\nAC\n+\nII\n@b x\nTT"),
             ("fastq", b"@a\nACGT\n+\nIIII\n@second"),
         ];
-        for (fm, data) in canon.iter() {
+        let blank_tails: [(&str, &[u8]); 4] = [("fasta", b"\n\n\r"), ("fasta", b"\r"), ("fasta", b"\r\n\r\n\r"), ("fastq", b"@a\nA\n+\nI\n\r\n\r")];
+        for (fm, data) in canon.iter().chain(blank_tails.iter()) {
             if !fmts.contains(fm) {
                 continue;
             }
-            let caps: Vec<usize> = (3..=data.len() + 2).collect();
-            fails.extend(run_monitors(fm, data, 2, &caps));
+            // each input under a watchdog: a call that does not return is a finding of its own (C06)
+            let (tx, rx) = std::sync::mpsc::channel();
+            let (fm2, data2) = (fm.to_string(), data.to_vec());
+            std::thread::spawn(move || {
+                let caps: Vec<usize> = (3..=data2.len() + 2).collect();
+                let r = run_monitors(&fm2, &data2, 2, &caps);
+                let _ = tx.send(r);
+            });
+            match rx.recv_timeout(std::time::Duration::from_secs(20)) {
+                Ok(r) => fails.extend(r),
+                Err(_) => {
+                    fails.push(Fail { tags: T_PANIC, msg: "a call does not return (watchdog, 20 s)".to_string(), scenario: format!("{} file={:?}, capacities 3..={}", fm, sv::util::show_bytes(data), data.len() + 2) });
+                    let f = fails.last().unwrap();
+                    if f.tags.contains(&prop.as_str()) {
+                        println!("{{\"outcome\":\"fail\",\"message\":{},\"tags\":{:?},\"scenario\":{},\"failures\":1}}", json_str(&f.msg), f.tags, json_str(&f.scenario));
+                        std::process::exit(1);
+                    }
+                }
+            }
             if fails.iter().any(|f| f.tags.contains(&prop.as_str())) {
                 break;
             }
